@@ -94,7 +94,7 @@ class World:
                 t = t.alias(f"{name.lower()}_{self._alias}")
             cols = TABLES[name]
             payload = Payload(t, columns_available={build.tag(c): t.c[c] for c in cols})
-            return self.sql.make_leaf(build.tags(cols), payload, name=name, min_rows=mn, max_rows=None if mx == -1 else mx)
+            return self.sql.make_leaf(build.tags(cols, reverse=(name == "T3")), payload, name=name, min_rows=mn, max_rows=None if mx == -1 else mx)
 
         self.leaves = {
             "T1": leaf("T1", st["lmin"], st["lmax"]),
@@ -141,7 +141,7 @@ class World:
             if k == "calc":
                 return rel.with_calculated_column(build.tag(o["tag"]), build.expr(o["e"]))
             if k == "proj":
-                return rel.with_only_columns(build.tags(o["cols"]))
+                return rel.with_only_columns(build.tags(o["cols"], reverse=True))
             if k == "sel":
                 return rel.with_rows_satisfying(build.pred(o["p"]))
             if k == "dedup":
